@@ -41,7 +41,8 @@ RAW = {
                "responses": {"200": {"description": "ok"}}} for m in ("post", "put", "patch")},
     }},
 }
-METHOD = {"engine-own": "GET", "engine-removed": "GET", "engine-overridden": "GET", "header": "GET", "query": "GET", "path": "DELETE", "cookie": "PATCH", "body": "POST", "json": "PUT", "form": "POST", "auth": "GET", "multipart": "POST"}
+METHOD = {"engine-own": "GET", "engine-removed": "GET", "engine-overridden": "GET", "header": "GET", "query": "GET", "path": "DELETE", "cookie": "PATCH", "body": "POST", "json": "PUT", "form": "POST", "auth": "GET", "multipart": "POST",
+          "graphql": "POST", "wsgi": "GET"}
 SANITIZED_LEN = 2   # elements with strings up to this length are also printed with output sanitisation on
 _P: dict = {}
 
@@ -62,14 +63,14 @@ def _server():
     return _P["srv"]
 
 
-def _schema(sanitize: bool = False):
-    key = ("schema", sanitize)
+def _schema(sanitize: bool = False, base: str = ""):
+    key = ("schema", sanitize, base)
     if key not in _P:
         import schemathesis
         from schemathesis.core.output import OutputConfig
 
         s = schemathesis.openapi.from_dict(json.loads(json.dumps(RAW)))
-        s.configure(base_url=_server().base_url, output=OutputConfig(sanitize=sanitize))
+        s.configure(base_url=_server().base_url + base, output=OutputConfig(sanitize=sanitize))
         _P[key] = s
     return _P[key]
 
@@ -120,28 +121,99 @@ def project(rec, auth: str, keep_auto: bool) -> dict:
     return {"method": cps(rec.method), "target": cps(rec.target), "headers": hs, "body": list(rec.body)}
 
 
+FRONT = {"api-header": "header", "api-body": "body", "base-slash": "path"}
+MARKER = "Reproduce with: \n\n    "
+
+
+def _check_fails(ctx, response, case):
+    raise AssertionError("verif")
+
+
+def _wsgi_app(environ, start_response):
+    _P["environ"] = ({k: v for k, v in environ.items() if isinstance(v, str)}, environ["wsgi.input"].read())
+    start_response("200 OK", [("Content-Type", "application/json")])
+    return [b"{}"]
+
+
+class _Rec:
+    """The request an in-process WSGI application received, in the shape of a server log entry."""
+
+    def __init__(self, env: dict, body: bytes):
+        self.method = env["REQUEST_METHOD"]
+        self.target = env.get("SCRIPT_NAME", "") + env["PATH_INFO"] + ("?" + env["QUERY_STRING"] if env.get("QUERY_STRING") else "")
+        self.headers = [[k[5:].replace("_", "-"), v] for k, v in env.items() if k.startswith("HTTP_")]
+        self.headers += [[k.replace("_", "-"), env[k]] for k in ("CONTENT_TYPE", "CONTENT_LENGTH") if env.get(k)]
+        self.body = body
+
+
 def observe(el: dict) -> dict:
     """Send the case (original request, as received by the server) and obtain the reproduction command from the real code."""
+    import schemathesis
+    from schemathesis.core.output import OutputConfig
+
     srv = _server()
-    op = _schema()["/x/{p}"][method_of(el)]
-    case = op.Case(**case_kwargs(el))
+    slot = el["slot"]
+    inner = dict(el, slot=FRONT.get(slot, slot))
     auth = srv.base_url.split("://", 1)[1]
+    if slot == "graphql":
+        if "graphql" not in _P:
+            _P["graphql"] = schemathesis.graphql.from_file("type Query { f(a: String): String }").configure(
+                base_url=srv.base_url + "/graphql", output=OutputConfig(sanitize=False))
+        case = _P["graphql"]["Query"]["f"].Case(body=text(el["s"]))
+    elif slot == "wsgi":
+        if "wsgi" not in _P:
+            _P["wsgi"] = schemathesis.openapi.from_dict(json.loads(json.dumps(RAW))).configure(app=_wsgi_app, output=OutputConfig(sanitize=False))
+        case = _P["wsgi"]["/x/{p}"]["GET"].Case(path_parameters={"p": "a"}, query={"q": text(el["s"])})
+    else:
+        case = _schema(False, "/api/" if slot == "base-slash" else "")["/x/{p}"][method_of(inner)].Case(**case_kwargs(inner))
     srv.clear()
+    _P.pop("environ", None)
+    message = None
     try:
-        response = case.call()
+        if slot == "api-body":
+            # Python API in one step: the failure message of call_and_validate carries the command
+            from schemathesis.core.failures import FailureGroup
+
+            try:
+                case.call_and_validate(checks=[_check_fails])
+                return {"cmd_error": "call_and_validate did not raise"}
+            except FailureGroup as exc:
+                message = exc.message
+            response = None
+        else:
+            response = case.call()
     except Exception as exc:
         return {"unsendable": "%s: %s" % (type(exc).__name__, str(exc)[:120])}
-    log = srv.snapshot()
-    if len(log) != 1:
-        return {"unsendable": "%d requests recorded" % len(log)}
-    verify = len(el["s"]) % 2 == 0
+    if slot == "wsgi":
+        original = _Rec(*_P["environ"])
+        auth = "\0no-port-to-normalise"
+    else:
+        log = srv.snapshot()
+        if len(log) != 1:
+            return {"unsendable": "%d requests recorded" % len(log)}
+        original = log[0]
+    verify = len(el["s"]) % 2 == 0 or slot.startswith("api-")
     try:
-        cmd = case.as_curl_command(headers=dict(response.request.headers), verify=verify)
+        if slot.startswith("api-"):
+            # the Python API front door: the command is what the failure message tells the user to run
+            from schemathesis.core.failures import FailureGroup
+
+            if message is None:
+                try:
+                    case.validate_response(response, checks=[_check_fails])
+                    return {"cmd_error": "validate_response did not raise"}
+                except FailureGroup as exc:
+                    message = exc.message
+            if MARKER not in message:
+                return {"cmd_error": "no 'Reproduce with' block in the failure message"}
+            cmd = message.split(MARKER, 1)[1]
+        else:
+            cmd = case.as_curl_command(headers=dict(response.request.headers), verify=verify)
     except Exception as exc:
         return {"cmd_error": "%s: %s" % (type(exc).__name__, str(exc)[:120])}
-    out = {"cmd": cps(cmd.replace(auth, FIXED_AUTH)), "orig": project(log[0], auth, False), "orig_full": project(log[0], auth, True),
-           "verify": verify}
-    if len(el["s"]) <= SANITIZED_LEN:
+    out = {"cmd": cps(cmd.replace(auth, FIXED_AUTH)), "orig": project(original, auth, False), "orig_full": project(original, auth, True),
+           "verify": verify, "no_exec": slot == "wsgi"}
+    if len(el["s"]) <= SANITIZED_LEN and slot not in FRONT and slot not in ("graphql", "wsgi"):
         # the same request printed with output sanitisation on: only redacted values may differ
         case_s = _schema(True)["/x/{p}"][method_of(el)].Case(**case_kwargs(el))
         try:
@@ -411,7 +483,12 @@ def py_verdict(o: dict) -> dict:
     elif rq["unknown"]:
         same, why = "U", "curl-outside-model"
     else:
-        d = (rq["method"] == om, rq["target"] == ot, rq["body"] == ob, _same_headers(rq["wire"], oh, o.get("redact", False)))
+        same_target = rq["target"] == ot
+        if o.get("lax"):
+            from urllib.parse import unquote_to_bytes
+
+            same_target = rq["target"].split("?", 1)[0] == ot.split("?", 1)[0] and unquote_to_bytes(rq["target"]) == unquote_to_bytes(ot)
+        d = (rq["method"] == om, same_target, rq["body"] == ob, _same_headers(rq["wire"], oh, o.get("redact", False)))
         same = "T" if all(d) else "F"
         why = "" if all(d) else "method" if not d[0] else "url" if not d[1] else (
             "body-read-from-file" if rq["reads"] else "body") if not d[2] else "headers"
@@ -462,7 +539,7 @@ def attribute(fails: list[dict]) -> None:
 def judge(ctx: Ctx, observations: list[dict], name: str = "obs.json"):
     f = ctx.path(name)
     empty = {"method": [], "target": [], "headers": [], "body": []}
-    tlc.write_json(f, [{"cmd": o["cmd"], "orig": o["orig"], "redact": o.get("redact", False), "hasExec": o["hasExec"], "nexec": o.get("nexec", 0),
+    tlc.write_json(f, [{"cmd": o["cmd"], "orig": o["orig"], "mode": "redact" if o.get("redact") else "lax" if o.get("lax") else "exact", "hasExec": o["hasExec"], "nexec": o.get("nexec", 0),
                         "exec": o.get("exec", empty)} for o in observations])
     verdicts: dict[int, dict] = {}
     res = tlc.require_ok(tlc.run_tlc("CurlJudge", "CurlJudge.cfg", env={"OBS_FILE": f}, timeout=3000, want_prints=False,
@@ -518,8 +595,9 @@ def run(ctx: Ctx) -> Outcome:
     n_exec = 150 if ctx.quick else 3000
     # every engine-attached command is executed; the rest of the budget is stratified
     forced = [i for i, _ in sendable if cases[i]["slot"].startswith("engine-")]
+    runnable = {i for i, o in sendable if not o.get("no_exec")}   # an in-process application has no socket for curl to reach
     picks = forced + stratified(rng, [((cases[i]["slot"] + ":" + cases[i]["m"], features(cases[i])), i) for i, _ in sendable
-                                      if not cases[i]["slot"].startswith("engine-")], max(0, n_exec - len(forced)))
+                                      if not cases[i]["slot"].startswith("engine-") and i in runnable], max(0, n_exec - len(forced)))
     t2 = time.time()
     execs = dict(zip(picks, common.pmap(_exec_work, [observed[i]["cmd"] for i in picks], chunk=4)))
     t_exec = time.time() - t2
@@ -528,7 +606,7 @@ def run(ctx: Ctx) -> Outcome:
         if i in execs:
             obs.append({"cmd": o["cmd"], "orig": o["orig_full"], "hasExec": True, **execs[i]})
         else:
-            obs.append({"cmd": o["cmd"], "orig": o["orig"], "hasExec": False})
+            obs.append({"cmd": o["cmd"], "orig": o["orig"], "hasExec": False, "lax": bool(o.get("no_exec"))})
     n_plain = len(obs)
     sanitized = [(i, o) for i, o in sendable if "cmd_sanitized" in o]
     obs += [{"cmd": o["cmd_sanitized"], "orig": o["orig"], "hasExec": False, "redact": True} for _, o in sanitized]
